@@ -412,6 +412,11 @@ def _whole_block(ctx):
             if isinstance(p, (ast.If, ast.While, ast.Assert)) and child is p.test:
                 is_test = True
             n_tests += 1
+            one = prog.parent(n)
+            if isinstance(one, ast.Subscript) and one.value is n and not isinstance(one.slice, ast.Slice) and isinstance(one.ctx, ast.Load):
+                # one line is looked at (a title, a name): nothing is embedded in place of the block
+                run.add('C20.whole-block', fn.module.name, fn.qualname, n, True, f'`{ast.unparse(one)}` reads a single line of the block')
+                continue
             run.add('C20.whole-block', fn.module.name, fn.qualname, n, is_test,
                     f'`{ast.unparse(n)}` is only tested for emptiness' if is_test else
                     f'`{ast.unparse(n)}` takes the content lines out of a text block: a header given to that block '
